@@ -54,7 +54,14 @@ def run(ctx):
     evs = [(b, callee_name(c), uev.call_args(b)) for (b, c, argi, ap) in uev.events_on(1, ("buf",)) if argi == 0 and up.blocks[b].term["arg_tys"][0].startswith("&mut")]
     apps = [e for e in evs if e[1] in ("extend_from_slice", "extend", "write_all", "push")]
     others = [e[1] for e in evs if e[1] not in ("extend_from_slice", "extend", "reserve", "write_all")]
-    oku = len(apps) == 1 and apps[0][2][1] == ("param", up.path, 2) and not up.in_loop(apps[0][0]) and all(up.dominates(apps[0][0], x) for x in up.exits()) and not others
+    def appended(t):
+        # extend(data.iter().copied()) / extend(data.iter().cloned()) / extend(data) append the same bytes as extend_from_slice(data)
+        t = W.expand(t)
+        for _ in range(4):
+            if is_call(t) and callee_name(t[1]) in ("copied", "cloned", "iter", "into_iter", "as_ref", "as_slice", "deref") and t[2]:
+                t = W.expand(t[2][0])
+        return t
+    oku = len(apps) == 1 and appended(apps[0][2][1]) == ("param", up.path, 2) and not up.in_loop(apps[0][0]) and all(up.dominates(apps[0][0], x) for x in up.exits()) and not others
     ctx.check("buffer-discipline", "update/appends-exactly-its-parameter", oku, "update appends exactly its parameter, once, on every path",
               "update's effect on buf is %s" % [(e[1], [fmt(a) for a in e[2][1:]]) for e in evs], ctx.loc(up))
     # from_seed: empty buffer
@@ -67,7 +74,9 @@ def run(ctx):
     sg = ctx.fn(S + "::sign")
     sev = W.ev(sg.path)
     signs = [bb for bb, t in sg.calls() if t["fn"].get("trait") == "signature::signer::Signer" or strip_generics(t["fn"].get("path", "")).endswith("Signer::sign")]
-    clears = [bb for bb, t in sg.calls() if callee_name(t["fn"].get("path", "")) == "clear" and sev.call_args(bb)[0] == ("field", ("param", sg.path, 1), "buf")]
+    # clear() or truncate(0) empty the buffer
+    clears = [bb for bb, t in sg.calls() if sev.call_args(bb) and sev.call_args(bb)[0] == ("field", ("param", sg.path, 1), "buf") and
+              (callee_name(t["fn"].get("path", "")) == "clear" or (callee_name(t["fn"].get("path", "")) == "truncate" and sev.call_args(bb)[1] == ("int", 0)))]
     oks = len(signs) == 1 and len(clears) == 1
     det = "%d dalek sign calls, %d buf.clear() calls" % (len(signs), len(clears))
     if oks:
@@ -92,7 +101,8 @@ def run(ctx):
     okv = len(evs) == 1 and evs[0][1] in ("extend_from_slice", "extend") and evs[0][2][1] == ("param", vu.path, 2) and not vu.in_loop(evs[0][0])
     ctx.check("verifier", "update/appends-exactly-its-parameter", okv, "MsgVerifier::update appends exactly its parameter", "MsgVerifier::update does %s" % [(e[1]) for e in evs], ctx.loc(vu))
     vf = ctx.fn(V + "::verify")
-    r = W.ev(vf.path).ret()
+    from lib import ret_as_predicate
+    r = ret_as_predicate(W, vf.path)
     okr = is_call(r, "Result::is_ok") and is_call(r[2][0]) and "VerifyingKey" in r[2][0][1] and r[2][0][2][0] == ("field", ("param", vf.path, 1), "pubkey") and r[2][0][2][1] == ("field", ("param", vf.path, 1), "buf")
     ctx.check("verifier", "verify/is-dalek-verify-of-buffer", okr, "verify = is_ok(pubkey.verify(buf, sig))", "verify returns %s" % fmt(r), ctx.loc(vf))
     # verifier objects never stored: no ADT has a field of type MsgVerifier, no static
